@@ -128,6 +128,8 @@ const DIRECTED_MANY_REGIONS: u64 = 1_000_001;
 /// quick-repair commit) gives a trailing region back, reopened through the snapshot, then filled far beyond its size
 /// again (the allocator has to look past the existing regions and grow the file)
 const DIRECTED_TRIM_REFILL: u64 = 1_000_002;
+/// directed: a commit that truncates the file, crashed right after its set_len
+const DIRECTED_SHRINK_CRASH: u64 = 1_000_003;
 
 #[derive(Clone, Copy, PartialEq, Eq, Debug)]
 enum Kind {
@@ -772,11 +774,12 @@ impl H {
         }
         let mut log = before_log;
         let cut = self.r.below(ops.len() as u64 + 1) as usize;
-        // favour cuts right around the syncs and header writes
+        // favour cuts right around the syncs, header writes and length changes (a truncation or extension that
+        // is on the medium while the writes around it are not)
         let interesting: Vec<usize> = ops
             .iter()
             .enumerate()
-            .filter(|(_, o)| matches!(o, Op::Sync) || matches!(o, Op::Write { off, .. } if *off == 0))
+            .filter(|(_, o)| matches!(o, Op::Sync | Op::SetLen(_)) || matches!(o, Op::Write { off, .. } if *off == 0))
             .map(|(i, _)| i)
             .collect();
         let cut = if !interesting.is_empty() && self.r.chance(2, 3) {
@@ -910,6 +913,118 @@ impl H {
                 false
             }
         }
+    }
+
+    /// one durable 1PC transaction on table "a": insert `ins` (700-byte values), remove `del`; spec kept in step;
+    /// returns the storage operations the transaction issued (already fed into the crash log)
+    fn direct_txn_ops(&mut self, ins: std::ops::Range<u64>, del: std::ops::Range<u64>) -> Option<Vec<Op>> {
+        self.absorb();
+        let mut spec = self.spec_latest.clone();
+        let label = format!("directed: insert {}..{} remove {}..{}", ins.start, ins.end, del.start, del.end);
+        let r = {
+            let db = self.db.as_ref().unwrap();
+            let m = spec.normal.entry("a".to_string()).or_default();
+            catch(|| {
+                let t = db.begin_write().map_err(|e| e.to_string())?;
+                {
+                    let mut tab = t.open_table(TA).map_err(|e| e.to_string())?;
+                    for k in ins {
+                        let mut v = vec![(k % 251) as u8; 700];
+                        v[..8].copy_from_slice(&k.to_le_bytes());
+                        tab.insert(&k, v.as_slice()).map_err(|e| e.to_string())?;
+                        m.insert(k, v);
+                    }
+                    for k in del {
+                        tab.remove(&k).map_err(|e| e.to_string())?;
+                        m.remove(&k);
+                    }
+                }
+                t.commit().map_err(|e| e.to_string())
+            })
+        };
+        let ops: Vec<Op> = self.backend.take_ops();
+        for o in &ops {
+            self.log.feed(o.clone());
+        }
+        self.trace.push(label.clone());
+        match r {
+            Ok(Ok(())) => {
+                self.spec_latest = spec;
+                self.spec_durable = self.spec_latest.clone();
+                self.durable_point();
+                let id = self.db.as_ref().and_then(Self::real_facts).map(|f| f.3).unwrap_or(0);
+                self.xevent(&format!("commit k=1pc id={id}"), None);
+                if self.dead { None } else { Some(ops) }
+            }
+            Ok(Err(e)) => {
+                self.fail(format!("{label}: failed: {e}"));
+                None
+            }
+            Err(p) => {
+                self.fail(format!("{label}: panicked: {p}"));
+                None
+            }
+        }
+    }
+
+    /// Directed: bulk data written, removed again, then small commits until one TRUNCATES the file; the process stops
+    /// right after that commit's set_len with everything issued so far on the medium (the truncation is there, whatever
+    /// the commit wrote after it is not). Like every crash image it must open to the contents before or after that commit
+    /// with exactly the required pages in use.
+    fn run_directed_shrink_crash(&mut self, skip: u64) {
+        let mut skip = skip;
+        self.cfg = Cfg { page_size: 512, region_size: Some(512 * 32), cache: 256 * 1024 };
+        match open_db(self.backend.handle(), self.cfg) {
+            Ok((db, _)) => self.db = Some(db),
+            Err(e) => {
+                self.fail(format!("create failed: {e}"));
+                return;
+            }
+        }
+        self.absorb();
+        self.durable_point();
+        self.xresync();
+        if self.direct_txn_ops(0..400, 0..0).is_none() || self.direct_txn_ops(0..0, 10..400).is_none() {
+            return;
+        }
+        for i in 0..14u64 {
+            let log_before = self.log.clone();
+            let before = self.spec_durable.clone();
+            let len_before = self.file_len();
+            let Some(ops) = self.direct_txn_ops(5000 + i..5001 + i, 0..0) else {
+                return;
+            };
+            let after = self.spec_durable.clone();
+            if std::env::var("C11_DEBUG").is_ok() {
+                let kinds: Vec<String> = ops.iter().map(|o| match o { Op::SetLen(n) => format!("L{n}"), Op::Sync => "Y".into(), Op::Write { off, data } => format!("W{off}+{}", data.len()), _ => "".into() }).filter(|x| !x.is_empty()).collect();
+                use std::io::Write as _;
+                if let Ok(mut f) = std::fs::OpenOptions::new().create(true).append(true).open(std::env::var("C11_DEBUG").unwrap()) {
+                    let _ = writeln!(f, "shrink-crash skip={skip} i={i} len_before={len_before} len_after={} ops={}", self.file_len(), kinds.join(" "));
+                }
+            }
+            if let Some(pos) = ops.iter().position(|o| matches!(o, Op::SetLen(n) if (*n as usize) < len_before)) {
+                if skip > 0 {
+                    // (an earlier truncating commit of this history is the one cut in a sibling run)
+                    skip -= 1;
+                    continue;
+                }
+                let mut log = log_before;
+                for o in &ops[..=pos] {
+                    log.feed(o.clone());
+                }
+                let img = log.image_all();
+                self.mark("directed_shrink_crash_cut");
+                self.discard_process();
+                self.open_image(img, &format!("crash-midcommit:cut{}/{}:all", pos + 1, ops.len()), vec![before, after]);
+                if !self.dead {
+                    self.own("directed: after the crash inside the truncating commit");
+                }
+                self.discard_process();
+                return;
+            }
+        }
+        self.mark("directed_shrink_crash_no_truncation_seen");
+        self.discard_process();
     }
 
     fn run_directed_trim_refill(&mut self) {
@@ -1060,6 +1175,11 @@ fn main() {
     if only.is_none() || only == Some(DIRECTED_TRIM_REFILL) {
         todo.push(DIRECTED_TRIM_REFILL);
     }
+    for j in 0..4 {
+        if only.is_none() || only == Some(DIRECTED_SHRINK_CRASH + j) {
+            todo.push(DIRECTED_SHRINK_CRASH + j);
+        }
+    }
     let work = |i: u64| -> Block {
         let mut h = H::new(i, seed, offs);
         let len = if thorough { 20 + h.r.below(40) } else { 12 + h.r.below(24) };
@@ -1067,6 +1187,8 @@ fn main() {
             h.run_directed_unpublished_growth();
         } else if i == DIRECTED_TRIM_REFILL {
             h.run_directed_trim_refill();
+        } else if (DIRECTED_SHRINK_CRASH..DIRECTED_SHRINK_CRASH + 4).contains(&i) {
+            h.run_directed_shrink_crash(i - DIRECTED_SHRINK_CRASH);
         } else if i == DIRECTED_MANY_REGIONS {
             h.cfg = Cfg { page_size: 512, region_size: Some(512 * 16), cache: 256 * 1024 };
             h.bulk_pending = 1;
